@@ -125,7 +125,7 @@ _ALL = {
              'combine all results (S4); the limit is divided (S5); arguments are passed in the right positions (S6); '
              'hash recipe and shard directory names equal the released format (P3).',
              'Per-call equivalence with the unsharded cache over histories needs execution and is not decided.'),
-    'C14': P(['T4', ('F3', r'timeout-exit'), 'R1', 'R2', 'R3', 'R4', ('E4', r'timeout-carries-count'),
+    'C14': P(['T4', ('F3', r'timeout-exit'), 'R1', 'R2', 'R3', 'R4', 'R5', ('E4', r'timeout-carries-count'),
               ('L6', r'init-leaves|connect-autocommit')],
              'may-raise-Timeout fixpoint over the resolved call graph + busy-path protocol of the manager',
              'Decides that a busy BEGIN either loops (retry) or releases the caller\'s new file and raises Timeout with '
